@@ -195,8 +195,8 @@ func (v *FnVC) libraryPost(fr *frame, st *State, x ssa.CallInstruction, args []V
 	if !ok {
 		return
 	}
-	var tag Term
-	found := false
+	var tag, kind Term
+	found, foundKind := false, false
 	for i := 0; i < nst.NumFields(); i++ {
 		if nst.Field(i).Name() == "Tag" {
 			tv := v.loadLoc(st, Loc{Kind: locField, Base: node.T, T: nst.Field(i).Type(), SKey: structKey(npt.Elem()), FName: "Tag"}, reach)
@@ -205,12 +205,20 @@ func (v *FnVC) libraryPost(fr *frame, st *State, x ssa.CallInstruction, args []V
 				found = true
 			}
 		}
+		if nst.Field(i).Name() == "Kind" {
+			kv := v.loadLoc(st, Loc{Kind: locField, Base: node.T, T: nst.Field(i).Type(), SKey: structKey(npt.Elem()), FName: "Kind"}, reach)
+			if ks, ok := kv.(Sc); ok {
+				kind = ks.T
+				foundKind = true
+			}
+		}
 	}
-	if !found {
+	if !found || !foundKind {
 		return
 	}
-	v.note("yaml.v3: decoding a node whose tag is not !!null into a **T target leaves a non-nil pointer (library fact)")
-	v.sc.Assert(Implies(And(reach, Eq(errV.Tag, tZero), Not(Eq(tag, StrLit("!!null")))), Not(Eq(after.T, tZero))))
+	// an alias node (Kind == AliasNode == 16) decodes what it refers to, which may be a null: nothing is known then
+	v.note("yaml.v3: decoding a non-alias node whose tag is not !!null into a **T target leaves a non-nil pointer (library fact)")
+	v.sc.Assert(Implies(And(reach, Eq(errV.Tag, tZero), Not(Eq(tag, StrLit("!!null"))), Not(Eq(kind, IntLit(16)))), Not(Eq(after.T, tZero))))
 }
 
 func calleeName(c *ssa.CallCommon) string {
@@ -376,7 +384,26 @@ func (v *FnVC) applyContract(fr *frame, st *State, con *Contract, callee *ssa.Fu
 	}
 	var res Val
 	if con.Pure {
-		res = v.pureApp(callee, args, st, rt, reach)
+		pargs, suffix := args, ""
+		if callee.Signature.Variadic() && x != nil && len(x.Common().Args) == len(args) && len(args) > 0 {
+			// a variadic pure function applied to a pack of known length is a function of the packed values,
+			// not of the identity of the pack (so that two applications to equal values agree)
+			last := len(args) - 1
+			et := under(callee.Params[last].Type()).(*types.Slice).Elem()
+			if pk := v.packLen(x.Common().Args[last]); pk >= 0 && kindOf(et) == kScalar {
+				if sv, ok := args[last].(SliceV); ok {
+					so := scalarSort(et)
+					a := v.he.get(st, famElem(et), arr2Sort(so))
+					tv := TupleV{}
+					for k := 0; k < pk; k++ {
+						tv.E = append(tv.E, Sc{Select(Select(a, sv.Arr, arrSort(so)), Add(sv.Off, IntLit(int64(k))), so)})
+					}
+					pargs = append(append([]Val(nil), args[:last]...), tv)
+					suffix = fmt.Sprintf("#pack%d", pk)
+				}
+			}
+		}
+		res = v.pureAppNamed(callee, suffix, pargs, st, rt, reach)
 	} else {
 		v.withLocalFrame(fr, st, func() {
 			for _, a := range args {
@@ -452,7 +479,11 @@ func (v *FnVC) applyIfaceContract(fr *frame, st *State, con *Contract, c *ssa.Ca
 // pureApp: result of a pure function as an uninterpreted function of its arguments
 // (plus the current versions of heap families the caller may change and the callee may read).
 func (v *FnVC) pureApp(callee *ssa.Function, args []Val, st *State, rt types.Type, guard Term) Val {
-	name := "fn#" + FuncKey(callee)
+	return v.pureAppNamed(callee, "", args, st, rt, guard)
+}
+
+func (v *FnVC) pureAppNamed(callee *ssa.Function, suffix string, args []Val, st *State, rt types.Type, guard Term) Val {
+	name := "fn#" + FuncKey(callee) + suffix
 	var sorts []Sort
 	var ts []Term
 	for _, a := range args {
@@ -654,6 +685,10 @@ func (v *FnVC) builtin(fr *frame, st *State, x ssa.CallInstruction, bi *ssa.Buil
 					q := fmt.Sprintf("(forall ((k Int)) (=> (and (<= %s k) (< k %s)) (= (select %s k) (select %s k))))",
 						s.Off.S, Add(s.Off, s.Len).S, fresh.S, Select(a, s.Arr, arrSort(so)).S)
 					v.sc.Assert(Implies(reach, Term{q, SBool}))
+					// the appended elements follow, in order
+					q2 := fmt.Sprintf("(forall ((k Int)) (=> (and (<= 0 k) (< k %s)) (= (select %s (+ %s k)) (select %s (+ %s k)))))",
+						add.Len.S, fresh.S, Add(s.Off, s.Len).S, Select(a, add.Arr, arrSort(so)).S, add.Off.S)
+					v.sc.Assert(Implies(reach, Term{q2, SBool}))
 				}
 			}
 		}
